@@ -43,6 +43,7 @@ func main() {
 				}
 				scenarios++
 				for r := 0; r < reps; r++ {
+					c17b.Reset()
 					st, err := influxql.ParseStatement(c17b.SharedTexts[sh])
 					if err != nil {
 						panic(err)
